@@ -287,7 +287,9 @@ def _main(args, prop, seed, t0, mod, known, open_known, known_keys, workdir):
     }
     if not args.replay:
         (ROOT / "evidence").mkdir(exist_ok=True)
-        (ROOT / "evidence" / f"{prop}.json").write_text(json.dumps(ev, indent=1, default=repr) + "\n")
+        # runs against a scratch worktree (mutation experiments) never overwrite real evidence
+        name = f"{prop}.json" if REPO == "/repo" else f"scratch-{prop}.json"
+        (ROOT / "evidence" / name).write_text(json.dumps(ev, indent=1, default=repr) + "\n")
 
     print(f"{prop} tier={tier} seed={seed} evaluations={evaluations} distinct_nontrivial={nontrivial} "
           f"violations={len(violations)} excluded_known={excluded} rejected={rejected} "
